@@ -130,13 +130,30 @@ def needCands (S : Nat) (c : Option Cert) : List Vec :=
 /-- the certificate's Farkas multipliers, made exact by `normalize` -/
 def needLam (c : Option Cert) : Option Vec := c.bind (fun c => c.lam.bind normalize)
 
-/-- `ok`: a belief (from the certificate or one of the LP-independent probes) where `k` beats all others by more than `epsOk`;
-    `bad`: Farkas multipliers showing a mixture of the OTHER kept vectors covers `k` within `epsBad` on every coordinate,
-    i.e. `k` is nowhere needed; otherwise undecided. -/
-def neededClause (S : Nat) (epsOk epsBad : Rat) (others : List Vec) (k : Vec) (c : Option Cert) : Env :=
-  if (needCands S c).any (fun b => strictNeededOK S epsOk others b k) then .ok else
+inductive Need where | ok | bad | within | undecided
+  deriving BEq, DecidableEq
+
+/-- at belief `b` the vector `k` TIES the envelope of `G` exactly (margin 0 in exact arithmetic): some `g` has the same
+    value and none is above -/
+def tieAtOK (n : Nat) (G : List Vec) (b : Vec) (k : Vec) : Bool :=
+  isBeliefB n b && G.any (fun g => dot b g == dot b k) && G.all (fun g => decide (dot b g ≤ dot b k))
+
+/-- failing verdict for a kept vector `k`: a Farkas cover by the OTHER kept vectors (within `epsBad`) is verified AND
+    (a) `k` ties the envelope exactly at one of the candidate beliefs — an exact tie, not a rounding matter — or
+    (b) the cover holds with uniform slack `tolBig` on every coordinate — `k` is below the envelope everywhere by more than
+        the documented tolerance -/
+def needBad (S : Nat) (epsBad tolBig : Rat) (others : List Vec) (k : Vec) (l : Vec) (cands : List Vec) : Bool :=
+  farkasOK S epsBad others l k && (cands.any (fun b => tieAtOK S others b k) || farkasOK S (-tolBig) others l k)
+
+/-- `ok`: a candidate belief (certificate, LP-independent probes, `extra` = recorded witness points) where `k` beats all others
+    by more than `epsOk`; `bad`: see `needBad`; `within`: covered by the others but neither an exact tie nor below the envelope
+    by more than the documented tolerance — a near-tie inside the tolerance, not reported; otherwise undecided. -/
+def neededClause (S : Nat) (epsOk epsBad tolBig : Rat) (extra : List Vec) (others : List Vec) (k : Vec) (c : Option Cert) : Need :=
+  if (needCands S c ++ extra).any (fun b => strictNeededOK S epsOk others b k) then .ok else
   match needLam c with
-  | some l => if farkasOK S epsBad others l k then .bad else .undecided
+  | some l =>
+    if needBad S epsBad tolBig others k l (needCands S c ++ extra) then .bad
+    else if farkasOK S epsBad others l k then .within else .undecided
   | none => .undecided
 
 end AITB.C12Check
